@@ -146,8 +146,8 @@ def jobs(tier, props, modes):
         else:
             ns = range(0, 5 if quick else 7)
         for n in ns:
-            for q in range(2, 11):
-                for n_nan in ((0, 1) if (quick and mode != "sorted") else (0, 1, 3)):
+            for q in ((2, 3, 4, 5, 7, 8, 10) if quick else range(2, 11)):
+                for n_nan in ((0, 1) if quick else (0, 1, 3)):
                     if n == 0 and n_nan == 0:
                         continue
                     if mode in ("perm", "iso") and n >= 5 and q not in (2, 3, 4, 5, 7, 10):
@@ -162,7 +162,7 @@ def obligation(tier, props, name, modes):
     return Obligation(
         name=name, harness=h_quantiles, jobs=jobs(tier, props, modes), encodes=ENC, rebindings=RB,
         bounds=f"n symbolic reals (ties included): unsorted n <= {4 if quick else 6}; under the assumption x0<=...<=x(n-1) n <= {9 if quick else 12}; "
-               f"NaN rows in {{0,1,3}}; q = round(1/min_freq) in 2..10",
+               f"NaN rows in {'{0,1}' if quick else '{0,1,3}'}; q = round(1/min_freq) in {'{2,3,4,5,7,8,10}' if quick else '2..10'}",
         outside="len_df > 15; q > 10 (min_freq < 0.1); min_freq values whose reciprocal is not an integer are covered through q only",
         twin_every=9,
         budget_s=4.0,
